@@ -350,6 +350,17 @@ func HTMLEscape(dst *bytes.Buffer, src []byte) {
 
 // Valid reports whether data is a valid JSON encoding.
 func Valid(data []byte) bool {
+	// a Decoder steps over one ',' or ':' in front of a value ( it may follow a Token call ):
+	// a text does not begin with either
+	for _, c := range data {
+		if c == ' ' || c == '\n' || c == '\r' || c == '\t' {
+			continue
+		}
+		if c == ',' || c == ':' {
+			return false
+		}
+		break
+	}
 	var v interface{}
 	decoder := NewDecoder(bytes.NewReader(data))
 	err := decoder.Decode(&v)
